@@ -5,7 +5,8 @@
 (* the harness at the return (or raise) of every public call and at every   *)
 (* change the driver itself makes to an object:                             *)
 (*   [op |-> "call"|"raise", f, res, pre, post, errpre, errpost]            *)
-(*   [op |-> "mutate", obj, p]   [op |-> "assign_norm", obj, n, unit]       *)
+(*   [op |-> "mutate"|"mutate_inplace", obj, p]                             *)
+(*   [op |-> "assign_norm"|"rebuild", obj, n, unit]                         *)
 (*   [op |-> "overwrite", obj, v]                                           *)
 (* pre / post give the value of EVERY live object before / after the step   *)
 (* (value = identity of content, computed bitwise by the harness; shells    *)
@@ -45,8 +46,15 @@ TraceCall ==
   /\ l' = l + 1 /\ UNCHANGED tid
 
 TraceMutate ==
-  /\ More /\ Ev.op = "mutate"
-  /\ Mutate(Ev.obj, Ev.p)
+  /\ More /\ Ev.op \in {"mutate", "mutate_inplace"}
+  /\ IF Ev.op = "mutate" THEN Mutate(Ev.obj, Ev.p) ELSE MutateInPlace(Ev.obj, Ev.p)
+  /\ Matches(Ev.post, val')
+  /\ l' = l + 1 /\ UNCHANGED tid
+
+TraceRebuild ==
+  /\ More /\ Ev.op = "rebuild"
+  /\ Ev.unit
+  /\ Rebuild(Ev.obj, Ev.n)
   /\ Matches(Ev.post, val')
   /\ l' = l + 1 /\ UNCHANGED tid
 
@@ -63,7 +71,7 @@ TraceOverwrite ==
   /\ Matches(Ev.post, val')
   /\ l' = l + 1 /\ UNCHANGED tid
 
-TraceNext == TraceCall \/ TraceMutate \/ TraceAssignNorm \/ TraceOverwrite
+TraceNext == TraceCall \/ TraceMutate \/ TraceAssignNorm \/ TraceRebuild \/ TraceOverwrite
 
 TraceSpec == TraceInit /\ [][TraceNext]_tvars
 
@@ -81,9 +89,9 @@ NotStuck == More => ENABLED TraceNext
 IsCall(e) == e.op \in {"call", "raise"}
 ArgVals(e) == [i \in 1..Len(ArgsOf[e.f]) |-> ObjVal(e.pre, ArgsOf[e.f][i])]
 CallsOf(f) == {<<t, i>> \in UNION {{<<t, i>> : i \in 1..Len(Traces[t])} : t \in 1..Len(Traces)} :
-                 IsCall(Traces[t][i]) /\ Traces[t][i].f = f}
+                 IsCall(Traces[t][i]) /\ Canon[Traces[t][i].f] = f}
 CrossHistory ==
-  \A f \in Funcs : \A x \in CallsOf(f), y \in CallsOf(f) :
+  \A f \in {Canon[g] : g \in Funcs} : \A x \in CallsOf(f), y \in CallsOf(f) :
      LET ex == Traces[x[1]][x[2]]
          ey == Traces[y[1]][y[2]]
      IN  ArgVals(ex) = ArgVals(ey) => (ex.res = ey.res /\ ex.op = ey.op)
